@@ -257,7 +257,7 @@ class Collada(object):
         mask so all exceptions abort the load just call c.ignoreErrors(None).
 
         """
-        if args == [None]:
+        if args == (None,):
             self.maskedErrors = []
         else:
             for e in args:
